@@ -601,7 +601,30 @@ def r03_11(chk):
     chk.floor("R03.11", 1, "Alignment.__getitem__")
 
 
+def r03_12(chk):
+    chk.rule("R03.12", "a column predicate is used through its truth value: in the filtered() implementations the value of predicate(...) reaches comparisons (==, !=) only through bool(...); used in `if` / `not` it is fine -- a predicate that returns a count keeps the column in the string model, and sibling classes must agree")
+    m = chk.repo.module(ALN)
+    n = 0
+    for cname in ("AlignmentI", "ArrayAlignment", "Alignment"):
+        ci = m.cls(cname)
+        fn = ci.methods.get("filtered")
+        if not isinstance(fn, ast.FunctionDef):
+            continue
+        calls = [c for c in walk_no_nested(fn) if isinstance(c, ast.Call) and isinstance(c.func, ast.Name) and c.func.id == "predicate"]
+        if not calls:
+            continue
+        n += 1
+        raw = set()
+        for st in walk_no_nested(fn):
+            if isinstance(st, ast.Assign) and len(st.targets) == 1 and isinstance(st.targets[0], ast.Name) and isinstance(st.value, ast.Call) and isinstance(st.value.func, ast.Name) and st.value.func.id == "predicate":
+                raw.add(st.targets[0].id)
+        bad = [c for c in walk_no_nested(fn) if isinstance(c, ast.Compare) and isinstance(c.ops[0], (ast.Eq, ast.NotEq)) and any((isinstance(o, ast.Name) and o.id in raw) or (isinstance(o, ast.Call) and isinstance(o.func, ast.Name) and o.func.id == "predicate") for o in [c.left] + c.comparators)]
+        chk.decide(not bad, "R03.12", key(m, f"{cname}.filtered", "predicate by truth value"), m.loc(bad[0] if bad else fn), "no comparison on the predicate's raw value", f"`{norm(bad[0]) if bad else ''}` compares the raw value returned by the predicate: a predicate returning counts (1, 2, 1, 0) opens and closes blocks at the wrong columns")
+    chk.floor("R03.12", 2, "filtered in both alignment classes")
+
+
 def run(chk):
+    r03_12(chk)
     r03_11(chk)
     r03_10(chk)
     r03_9(chk)
